@@ -253,7 +253,7 @@ pub fn verify_reqs(pool: &Pool, sc: &Scenario, reqs: &[ReqSpec], proof: &Proof, 
     })
 }
 
-fn err_msg_s(e: &str) -> Error {
+pub fn err_msg_s(e: &str) -> Error {
     Error::new(ErrorKind::InvalidState, e.to_string())
 }
 
